@@ -150,6 +150,15 @@ theorem checkData_ext (cfg : Cfg) (a : A) (h : Hdr) (evs : List Ev) :
     · exact h4
     · exact h4.foldl _ _ (fun x y => errExt_foldl _ _ (fun x' y' => errExt_chk _ _ _ _ _ (by simp)) _ _)
 
+theorem checkNoticeOrigin_ext (cfg : Cfg) (a : A) (rd : Option Read) (evs : List Ev) :
+    ErrExt ["C14"] a (checkNoticeOrigin cfg a rd evs) := by
+  unfold checkNoticeOrigin
+  split
+  · exact ErrExt.refl _ _
+  · split
+    · exact errExt_err _ _ _ _ (by simp)
+    · exact ErrExt.refl _ _
+
 theorem checkNoNotice_ext (cfg : Cfg) (a : A) (all : List Ev) : ErrExt ["C14"] a (checkNoNoticeAboutNotices cfg a all) := by
   unfold checkNoNoticeAboutNotices
   exact errExt_chk _ _ _ _ _ (by simp)
